@@ -5,7 +5,7 @@ OPTS = [dict(), dict(p_validate=0.6, p_enable=0.5), dict(p_nested=0.35, p_rel=0.
 
 
 def run(rep):
-    core_check(rep, "C03", [dict(o) for o in OPTS], 96, 1600, nontrivial_key="impl_designs_built")
+    core_check(rep, "C03", [dict(o) for o in OPTS], 64, 1600, nontrivial_key="impl_designs_built")
     rep.coverage["rule"] = ("random designs from vlib/coregen.py's grammar built with the real API, every valuation of the "
                             "control inputs (or random ones when there are many), both directions bound by TxnCoreTrace; "
                             "clause RunImpliesEnabled (readiness of the whole static call tree, validation of would-be-active calls, run of ready-dependencies); distinct_nontrivial = built designs")
